@@ -301,7 +301,10 @@ func extractC20Run(repo, out string) error {
 	}
 	fmt.Fprintf(&sb, "/-- constructs of a `Validate` body the translator did not know (must be empty) -/\ndef unknownConstructs : List String := [%s]\n", strings.Join(us, ", "))
 	sb.WriteString("\nend FxVerif.Gen.C20Run\n")
-	return os.WriteFile(filepath.Join(out, "C20Run.lean"), []byte(sb.String()), 0o644)
+	if err := os.WriteFile(filepath.Join(out, "C20Run.lean"), []byte(sb.String()), 0o644); err != nil {
+		return err
+	}
+	return extractC20MsgLoad(cfg, repo, out)
 }
 
 // ---------------------------------------------------------------------------------------------------------------
